@@ -43,10 +43,11 @@ structure BStmt (env : Env) (n : Nat) : Prop where
     (renderFor env n x items i body ctx).run.run w = (.ok toks, w') → Bare toks
   node : ∀ nd ctx w toks w', tnode nd = true → ctxFree ctx = true → WInv w →
     (renderNode env n nd ctx).run.run w = (.ok toks, w') → Bare toks
-  tag : ∀ name kwargs only dyn ctx w toks w', isDynName name = false → ctxFree ctx = true → WInv w →
-    (renderCompTag env n name kwargs only dyn [] ctx).run.run w = (.ok toks, w') → Bare toks
-  impl : ∀ name kw o ctx w toks w', isDynName name = false → ctxFree ctx = true → ctxFree o = true → slotFreeKvs kw = true → WInv w →
-    (renderImpl env n name kw [] (some o) ctx).run.run w = (.ok toks, w') → Bare toks
+  tag : ∀ name kwargs only dyn body ctx w toks w', isDynName name = false → fbody body = true → ctxFree ctx = true → WInv w →
+    (renderCompTag env n name kwargs only dyn body ctx).run.run w = (.ok toks, w') → Bare toks
+  impl : ∀ name kw fills o ctx w toks w', isDynName name = false → ctxFree ctx = true → ctxFree o = true → slotFreeKvs kw = true →
+    GoodFills fills → WInv w →
+    (renderImpl env n name kw fills (some o) ctx).run.run w = (.ok toks, w') → Bare toks
   slot : ∀ nameE isRequired data body ctx w toks w', tnodes body = true → ctxFree ctx = true → WInv w →
     (renderSlot env n nameE false isRequired data body ctx).run.run w = (.ok toks, w') → Bare toks
 
@@ -55,21 +56,26 @@ theorem bstmt_zero (env : Env) : BStmt env 0 := by
   · intro nodes ctx w toks w' _ _ _ h; simp only [renderNodes, run_throw] at h; cases h
   · intro x items i body ctx w toks w' _ _ _ _ h; simp only [renderFor, run_throw] at h; cases h
   · intro nd ctx w toks w' _ _ _ h; simp only [renderNode, run_throw] at h; cases h
-  · intro name kwargs only dyn ctx w toks w' _ _ _ h; simp only [renderCompTag, run_throw] at h; cases h
-  · intro name kw o ctx w toks w' _ _ _ _ _ h; simp only [renderImpl, run_throw] at h; cases h
+  · intro name kwargs only dyn body ctx w toks w' _ _ _ _ h; simp only [renderCompTag, run_throw] at h; cases h
+  · intro name kw fills o ctx w toks w' _ _ _ _ _ _ h; simp only [renderImpl, run_throw] at h; cases h
   · intro nameE isRequired data body ctx w toks w' _ _ _ h; simp only [renderSlot, run_throw] at h; cases h
 
 theorem bstmt_slot (env : Env) (n : Nat) (ih : BStmt env n) :
     ∀ nameE isRequired data body ctx w toks w', tnodes body = true → ctxFree ctx = true → WInv w →
     (renderSlot env (n + 1) nameE false isRequired data body ctx).run.run w = (.ok toks, w') → Bare toks := by
   intro nameE isRequired data body ctx w toks w' hb hc hw h
-  rcases slot_unfolds env n nameE isRequired data body ctx w hc hw with ⟨e, he⟩ | he | ⟨c3, hc3, _, he⟩
+  rcases slot_unfolds env n nameE isRequired data body ctx w hc hw with ⟨e, he⟩ | he | ⟨cid, cc, c3, _, hcc, hc3, hcase⟩
   · rw [he] at h; cases h
   · rw [he] at h
     obtain ⟨rfl, rfl⟩ := ok_inj h
     exact bare_nil
-  · rw [he] at h
-    exact ih.nodes body c3 w toks w' hb hc3 hw h
+  · rcases hcase with ⟨_, _, he⟩ | ⟨f, hf, he⟩
+    · rw [he] at h
+      exact ih.nodes body c3 w toks w' hb hc3 hw h
+    · rw [he] at h
+      obtain ⟨k', hmem⟩ := sGet_mem _ _ f hf
+      have hgf : GoodFill f := (hw.good cid cc hcc).1 (k', f) hmem
+      exact ih.nodes f.nodes c3 w toks w' hgf.1 hc3 hw h
 
 theorem bstmt_succ (env : Env) (hlib : GoodLib env) (n : Nat) (ih : BStmt env n) : BStmt env (n + 1) := by
   have st := stmt_all env hlib n
@@ -153,10 +159,9 @@ theorem bstmt_succ (env : Env) (hlib : GoodLib env) (n : Nat) (ih : BStmt env n)
         have b1 := ih.nodes body ctx _ a w1 ht hc hw1 h1
         exact bare_append (bare_append (bare_of_noholes [Tok.opn tag []] rfl) b1) (bare_of_noholes [Tok.cls tag] rfl)
       | comp name kwargs only dyn body =>
-        simp only [tnode, Bool.and_eq_true, List.isEmpty_iff, Bool.not_eq_true'] at ht
+        simp only [tnode, Bool.and_eq_true, Bool.not_eq_true'] at ht
         obtain ⟨hb, hd⟩ := ht
-        subst hb
-        exact ih.tag name kwargs only dyn ctx _ toks w' hd hc hw1 h
+        exact ih.tag name kwargs only dyn body ctx _ toks w' hd hb hc hw1 h
       | slot nameE isDefault isRequired data body =>
         simp only [tnode, Bool.and_eq_true, Bool.not_eq_true'] at ht
         obtain ⟨hdf, hb⟩ := ht
@@ -168,7 +173,7 @@ theorem bstmt_succ (env : Env) (hlib : GoodLib env) (n : Nat) (ih : BStmt env n)
       | blockSuper => simp [tnode] at ht
       | «extends» a => simp [tnode] at ht
       | includen a => simp [tnode] at ht
-  · intro name kwargs only dyn ctx w toks w' hd hc hw h
+  · intro name kwargs only dyn body ctx w toks w' hd hb hc hw h
     unfold renderCompTag at h
     cases hext : isExtracting ctx with
     | true =>
@@ -176,22 +181,24 @@ theorem bstmt_succ (env : Env) (hlib : GoodLib env) (n : Nat) (ih : BStmt env n)
       obtain ⟨rfl, rfl⟩ := ok_inj h
       exact bare_nil
     | false =>
-      simp only [hext, Bool.false_eq_true, ↓reduceIte, run_bind] at h
+      simp only [hext, Bool.false_eq_true, ↓reduceIte] at h
       cases hf : findDef env name with
-      | none => simp only [hf, hd, Bool.false_eq_true, ↓reduceIte, run_throw] at h; cases h
+      | none => simp only [hf, hd, Bool.false_eq_true, ↓reduceIte, run_bind, run_throw] at h; cases h
       | some d =>
-        simp only [hf, run_pure] at h
+        simp only [hf] at h
+        obtain ⟨fills, w1, hres, h⟩ := bind_ok _ _ _ _ _ h
         cases n with
-        | zero => simp only [resolveFills, run_throw] at h; cases h
+        | zero => simp only [resolveFills, run_throw] at hres; cases hres
         | succ m =>
-          unfold resolveFills at h
-          simp only [List.isEmpty_nil, ↓reduceIte, run_pure] at h
-          refine ih.impl name (evalKwargs ctx kwargs) ctx _ w toks w' hd ?_ hc (evalKwargs_free ctx hc kwargs) hw h
+          obtain ⟨hgf, st', rfl⟩ := resolveFills_ok env m body ctx w w1 fills hb hc hres
+          have hcore : core ({ w with steps := st' } : World) = core w := rfl
+          refine ih.impl name (evalKwargs ctx kwargs) fills ctx _ _ toks w' hd ?_ hc (evalKwargs_free ctx hc kwargs) hgf
+            (WInv.of_core hcore.symm hw) h
           split
           · exact ctxFree_isolatedCopy ctx hc
           · exact hc
-  · intro name kw o ctx w toks w' hd hc ho hkw hw h
-    have hbal := (stmt_impl env n st hlib) name kw o ctx w toks w' hd hc ho hkw hw h
+  · intro name kw fills o ctx w toks w' hd hc ho hkw hgf hw h
+    have hbal := (stmt_impl env n st hlib) name kw fills o ctx w toks w' hd hc ho hkw hgf hw h
     cases hpar : parentOf ctx with
     | none => exact bare_of_noholes toks (hbal.2 hpar)
     | some p =>
@@ -731,10 +738,10 @@ theorem pack_root {env : Env} {n : Nat} {name : Str} {w w' : World} {toks : List
   ⟨w1, cc, r, hg, hcc, hn, e1, e2, e3, e4, e5, e6, e7, e8, e9, h⟩
 
 /-- `_render_impl` where no component encloses the tag, up to the call of `component_post_render` -/
-theorem impl_root_run (env : Env) (hlib : GoodLib env) (n : Nat) (name : Str) (kw : List (Str × Val)) (o : Ctx)
-    (ctx : Ctx) (w w' : World) (toks : List Tok) (hd : isDynName name = false) (hc : ctxFree ctx = true) (ho : ctxFree o = true)
-    (hkw : slotFreeKvs kw = true) (hw : WInv w) (hpar : parentOf ctx = none)
-    (h : (renderImpl env (n + 1) name kw [] (some o) ctx).run.run w = (.ok toks, w')) :
+theorem impl_root_run (env : Env) (hlib : GoodLib env) (n : Nat) (name : Str) (kw : List (Str × Val)) (fills : List (Str × FillFn))
+    (o : Ctx) (ctx : Ctx) (w w' : World) (toks : List Tok) (hd : isDynName name = false) (hc : ctxFree ctx = true)
+    (ho : ctxFree o = true) (hkw : slotFreeKvs kw = true) (hgf : GoodFills fills) (hw : WInv w) (hpar : parentOf ctx = none)
+    (h : (renderImpl env (n + 1) name kw fills (some o) ctx).run.run w = (.ok toks, w')) :
     ∃ w1 cc r, GoodR env r w.nextId ∧ GoodC cc ∧ r.name = name ∧
       w1.nextId = w.nextId + 1 ∧ w1.ctxCache = alSet w.nextId cc w.ctxCache ∧
       w1.rendererCache = alSet w.nextId r w.rendererCache ∧ w1.childAttrs = w.childAttrs ∧
@@ -760,7 +767,7 @@ theorem impl_root_run (env : Env) (hlib : GoodLib env) (n : Nat) (name : Str) (k
       · rename_i a wt ht
         obtain ⟨g, rfl⟩ := tick_ok _ _ _ _ _ ht
         simp only [hgd, run_bind, run_pure, run_modify] at h
-        exact pack_root _ h _ _ (good_renderer env name kw ctx w.nextId d _ hc hkw hf hgood.2) (good_cc name w.nextId _ o ho) rfl
+        exact pack_root _ h _ _ (good_renderer env name kw ctx w.nextId d _ fills hc hkw hf hgood.2) (good_cc name w.nextId _ fills o hgf ho) rfl
           rfl rfl rfl rfl hw.prov.symm rfl rfl rfl rfl
       · cases h
     | false =>
@@ -770,7 +777,7 @@ theorem impl_root_run (env : Env) (hlib : GoodLib env) (n : Nat) (name : Str) (k
       · rename_i a wt ht
         obtain ⟨g, rfl⟩ := tick_ok _ _ _ _ _ ht
         simp only [hgd, run_bind, run_pure, run_modify] at h
-        exact pack_root _ h _ _ (good_renderer env name kw ctx w.nextId d _ hc hkw hf hgood.2) (good_cc name w.nextId _ o ho) rfl
+        exact pack_root _ h _ _ (good_renderer env name kw ctx w.nextId d _ fills hc hkw hf hgood.2) (good_cc name w.nextId _ fills o hgf ho) rfl
           rfl rfl rfl rfl hw.prov.symm rfl rfl rfl rfl
       · cases h
 
@@ -825,33 +832,34 @@ theorem loop_root_exp (env : Env) (hlib : GoodLib env) (n : Nat) (w w1 w' : Worl
 /-- **The output of a component tag that no component encloses is the in-order expansion of its instance** — whatever
 tree of components the library unfolds under it. -/
 theorem tree_root_output (env : Env) (hlib : GoodLib env) (n : Nat) (name : Str) (kwargs : List (Str × Expr)) (only dyn : Bool)
-    (ctx : Ctx) (w w' : World) (toks : List Tok)
-    (hd : isDynName name = false) (hc : ctxFree ctx = true) (hw : WInv w) (hext : isExtracting ctx = false)
+    (body : List Node) (ctx : Ctx) (w w' : World) (toks : List Tok)
+    (hd : isDynName name = false) (hb : fbody body = true) (hc : ctxFree ctx = true) (hw : WInv w) (hext : isExtracting ctx = false)
     (hpar : parentOf (if only || env.isolated then isolatedCopy ctx else ctx) = none)
-    (h : (renderCompTag env n name kwargs only dyn [] ctx).run.run w = (.ok toks, w')) :
+    (h : (renderCompTag env n name kwargs only dyn body ctx).run.run w = (.ok toks, w')) :
     Exp env [Tok.hole w.nextId []] toks := by
   cases n with
   | zero => simp only [renderCompTag, run_throw] at h; cases h
   | succ n =>
     unfold renderCompTag at h
-    simp only [hext, Bool.false_eq_true, ↓reduceIte, run_bind] at h
+    simp only [hext, Bool.false_eq_true, ↓reduceIte] at h
     cases hf : findDef env name with
-    | none => simp only [hf, hd, Bool.false_eq_true, ↓reduceIte, run_throw] at h; cases h
+    | none => simp only [hf, hd, Bool.false_eq_true, ↓reduceIte, run_bind, run_throw] at h; cases h
     | some d =>
-      simp only [hf, run_pure] at h
+      simp only [hf] at h
+      obtain ⟨fills, w1, hres, h⟩ := bind_ok _ _ _ _ _ h
       cases n with
-      | zero => simp only [resolveFills, run_throw] at h; cases h
+      | zero => simp only [resolveFills, run_throw] at hres; cases hres
       | succ m =>
-        unfold resolveFills at h
-        simp only [List.isEmpty_nil, ↓reduceIte, run_pure] at h
+        obtain ⟨hgf, st, rfl⟩ := resolveFills_ok env m body ctx w w1 fills hb hc hres
+        have hcore : core ({ w with steps := st } : World) = core w := rfl
+        have hws : WInv ({ w with steps := st } : World) := WInv.of_core hcore.symm hw
         have hc' : ctxFree (if only || env.isolated then isolatedCopy ctx else ctx) = true := by
           split
           · exact ctxFree_isolatedCopy ctx hc
           · exact hc
-        obtain ⟨w1, cc, r, hg, hcc, _, e1, e2, e3, e4, e5, e6, e7, e8, e9, hrun⟩ :=
-          impl_root_run env hlib m name (evalKwargs ctx kwargs) ctx _ w w' toks hd hc' hc (evalKwargs_free ctx hc kwargs) hw hpar h
-        exact loop_root_exp env hlib m w w1 w' toks hw hrun cc r hg hcc e1 e2 e3 e4 e5 e6 e7 e8 e9
-
+        obtain ⟨w2, cc, r, hg, hcc, _, e1, e2, e3, e4, e5, e6, e7, e8, e9, hrun⟩ :=
+          impl_root_run env hlib m name (evalKwargs ctx kwargs) fills ctx _ _ w' toks hd hc' hc (evalKwargs_free ctx hc kwargs) hgf hws hpar h
+        exact loop_root_exp env hlib m ({ w with steps := st } : World) w2 w' toks hws hrun cc r hg hcc e1 e2 e3 e4 e5 e6 e7 e8 e9
 
 /-! ### inversion of the expansion; the concrete instance -/
 
@@ -871,13 +879,13 @@ theorem Exp.hole_inv {env : Env} {c : Nat} {a : List Str} {rest out : List Tok} 
 
 /-- what the three-level example of `Djc/Proofs/Tree.lean` prints in django mode: `page` (id 1) has the component `list`
 (id 2) as a root, so the `<ul>` carries both ids; the `<li>` of the leaves in the loop (ids 4, 5) are not roots of `list`
-and carry their own id only; the leaf beside the list (id 3) is a root of `page`: both ids; every leaf renders the default
-content `~` of its unfilled slot -/
+and carry their own id only; the leaf beside the list (id 3) is a root of `page`: both ids; the leaves in the loop render the
+fill `+{{ x }}` given at their tag, the leaf beside the list the default content `~` of its unfilled slot -/
 def exExpected : List Tok :=
   let A (ids : List Nat) : List Str := ids.map idAttr
   [.marker "page".toList 1, .marker "list".toList 2, .opn "ul".toList (A [1, 2]),
-   .marker "leaf".toList 4, .opn "li".toList (A [4]), .text "p".toList, .text "~".toList, .cls "li".toList,
-   .marker "leaf".toList 5, .opn "li".toList (A [5]), .text "q".toList, .text "~".toList, .cls "li".toList,
+   .marker "leaf".toList 4, .opn "li".toList (A [4]), .text "p".toList, .text "+".toList, .text "p".toList, .cls "li".toList,
+   .marker "leaf".toList 5, .opn "li".toList (A [5]), .text "q".toList, .text "+".toList, .text "q".toList, .cls "li".toList,
    .cls "ul".toList, .text "-".toList,
    .marker "leaf".toList 3, .opn "li".toList (A [1, 3]), .text "z".toList, .text "~".toList, .cls "li".toList]
 
